@@ -2,7 +2,8 @@
    Executor.try_skip_job.  Definitions only (proofs in proofs/HashSkipProofs.v).
 
    H is SHA-256 (Section variable, as in model/Hash.v `refreshed`).
-   disk p = None when os.stat p fails, otherwise the stat fields and the content.
+   disk p : dstate (model/HashSkipTypes.v): missing, a readable regular file, or something that
+   can be stat'ed but not hashed (directory, no permission).
 
    compute_inp_hashes / compute_out_hashes (hash.py) refresh the recorded FileHash of every path
    against the disk; the per-path outcome of compute_inp_hashes is generated (gen/GenHashSkip.v).
@@ -11,7 +12,7 @@
    try_skip compares the recorded pair of digests with the new one (generated tests, in the order
    of the source) and says whether the step is skipped. *)
 From Coq Require Import List NArith Bool Permutation.
-From SV Require Import lib.Bytes lib.KeySort model.HashTypes gen.GenHash model.Hash
+From SV Require Import lib.Bytes lib.KeySort lib.Base85 model.HashTypes gen.GenHash model.Hash
   model.HashSiteTypes gen.GenHashSites model.HashSites model.HashSkipTypes gen.GenHashSkip.
 Import ListNotations.
 Open Scope N_scope.
@@ -29,23 +30,50 @@ Definition sigs (l : list (str * fhash)) : list (str * fsig) :=
 Section Skip.
   Variable H : str -> str.
 
-  Definition disk := str -> option (fstat * str).
+  Definition disk := str -> dstate.
 
-  (* one iteration of `for path in sorted(inp_hashes)` *)
+  (* FileHash.refreshed with its third outcome: None = it raises HashFailedError / OSError (only when
+     the stat shortcut is not taken: the content is not touched otherwise) *)
+  Definition refreshed_x (old : fhash) (o : dstate) : option fhash :=
+    match o with
+    | DMissing => Some (refreshed H old None)
+    | DFile st data => Some (refreshed H old (Some (st, data)))
+    | DUnreadable st => if refreshed_same old st then Some old else None
+    end.
+
+  (* one iteration of `for path in sorted(inp_hashes)`; an exception that leaves the function is
+     folded into InpRaise (the executor gets no result either way) *)
   Definition inp_entry (d : disk) (e : str * fhash) : (str * fhash) * inp_outcome :=
-    let new := refreshed H (snd e) (d (fst e)) in
-    ((fst e, new),
-     inp_entry_outcome (negb (fh_eqb new (snd e))) (fh_is_unknown new) (fh_is_unknown (snd e))).
+    match refreshed_x (snd e) (d (fst e)) with
+    | Some new =>
+        ((fst e, new),
+         inp_entry_outcome (negb (fh_eqb new (snd e))) (fh_is_unknown new) (fh_is_unknown (snd e)) false)
+    | None =>
+        match inp_on_unreadable with
+        | Some new =>
+            ((fst e, new),
+             inp_entry_outcome (negb (fh_eqb new (snd e))) (fh_is_unknown new) (fh_is_unknown (snd e)) true)
+        | None => (e, InpRaise)
+        end
+    end.
 
-  (* None: ConsistencyError; Some (messages non-empty, all_hashes) *)
+  (* does compute_inp_hashes see this input as the recorded one? *)
+  Definition inp_unchanged (d : disk) (e : str * fhash) : bool :=
+    match refreshed_x (snd e) (d (fst e)) with
+    | Some new => fh_eqb new (snd e)
+    | None => false
+    end.
+
+  (* None: ConsistencyError or another exception; Some (messages non-empty, all_hashes) *)
   Definition compute_inp_hashes (d : disk) (olds : list (str * fhash)) : option (bool * list (str * fhash)) :=
     let rs := map (inp_entry d) (sort_keys olds) in
     if existsb is_raise (map snd rs) then None
     else Some (existsb is_message (map snd rs), map fst rs).
 
-  (* all_hashes of compute_out_hashes (missing outputs are hashed as unknown) *)
-  Definition compute_out_hashes (d : disk) (olds : list (str * fhash)) : list (str * fhash) :=
-    map (fun e => (fst e, refreshed H (snd e) (d (fst e)))) (sort_keys olds).
+  (* all_hashes of compute_out_hashes (missing outputs are hashed as unknown); None: refreshed
+     raised (an output is a directory / unreadable), the executor gets no result *)
+  Definition compute_out_hashes (d : disk) (olds : list (str * fhash)) : option (list (str * fhash)) :=
+    mapM (fun e => option_map (pair (fst e)) (refreshed_x (snd e) (d (fst e)))) (sort_keys olds).
 
   (* the input map that reaches StepHash.from_inp *)
   Definition observed_inps (d : disk) (olds : list (str * fhash)) : option (list (str * fsig)) :=
@@ -53,22 +81,23 @@ Section Skip.
     | Some (false, all) => Some (sigs all)
     | _ => None
     end.
-  Definition observed_outs (d : disk) (olds : list (str * fhash)) : list (str * fsig) :=
-    sigs (compute_out_hashes d olds).
+  Definition observed_outs (d : disk) (olds : list (str * fhash)) : option (list (str * fsig)) :=
+    option_map sigs (compute_out_hashes d olds).
 
   (* Executor._compute_full_step_hash after the command of the step ran (execute_job records it
      with Step.mark_completed when the run succeeded): the recorded hash and the configuration it
      was computed from.  s gives the ingredients other than files. *)
   Definition full_step_hash (s : syscfg) (d : disk) (inp_olds out_olds : list (str * fhash))
     : option (shash * syscfg) :=
-    match observed_inps d inp_olds with
-    | Some inps =>
-        let s' := with_outs (with_inps s inps) (observed_outs d out_olds) in
+    match observed_inps d inp_olds, observed_outs d out_olds with
+    | Some inps, Some outs =>
+        let s' := with_outs (with_inps s inps) outs in
         Some (mk_shash (H (inp_preimage (site_full_cfg s'))) (Some (H (out_preimage (site_full_outs s')))), s')
-    | None => None
+    | _, _ => None
     end.
 
-  (* Executor.try_skip_job.  None: the step failed early (changed / vanished / missing input).
+  (* Executor.try_skip_job.  None: the step failed early (changed / vanished / missing / unreadable
+     input, or the outputs could not be hashed).
      Some (true, h): skipped, h is recorded (Step.mark_completed (new_hash, False)).
      Some (false, _): NOSKIP, the step is reset to PENDING without a hash. *)
   Definition try_skip (rec : shash) (s : syscfg) (d : disk) (inp_olds out_olds : list (str * fhash))
@@ -80,9 +109,13 @@ Section Skip.
         let new1 := mk_shash (H (inp_preimage (site_inp_cfg s1))) None in
         if skip_inp_differs rec new1 then Some (false, new1)
         else
-          let s2 := with_outs s1 (observed_outs d out_olds) in
-          let new2 := mk_shash (sh_inp new1) (Some (H (out_preimage (site_out_outs s2)))) in
-          if skip_out_differs rec new2 then Some (false, new2) else Some (true, new2)
+          match observed_outs d out_olds with
+          | None => None
+          | Some outs =>
+              let s2 := with_outs s1 outs in
+              let new2 := mk_shash (sh_inp new1) (Some (H (out_preimage (site_out_outs s2)))) in
+              if skip_out_differs rec new2 then Some (false, new2) else Some (true, new2)
+          end
     end.
 
   (* collision-freeness of SHA-256 on one pair of pre-images *)
